@@ -79,6 +79,16 @@ def confined(p1: str, p2: str, ro: bool, tr_: bool, calls: List[int], foreign: s
         p1 = ctx.S('p1')
     p1, p2, foreign = ctx.pick(p1, B('P1')), ctx.pick(p2, B('P2')), ctx.pick(foreign, B('FOREIGN'))
     calls = [ctx.pick(c, range(4)) for c in calls]
+    ro, tr_, use_with = (True if ro else False), (True if tr_ else False), (True if use_with else False)
+    with ctx.untraced():
+        ok, marks = _confined(p1, p2, ro, tr_, calls, foreign, use_with)
+    for m in marks:
+        ctx.mark(m)
+    return ctx.done(ok, 'transient-cleanup')
+
+
+def _confined(p1, p2, ro, tr_, calls, foreign, use_with):
+    marks = []
     env = s3env.install()
     store = env.store
     fkey = ROOT + foreign
@@ -122,7 +132,7 @@ def confined(p1: str, p2: str, ro: bool, tr_: bool, calls: List[int], foreign: s
     same_area = (p1 == p2)
     if ro:
         ok = ok and store.log == [] and not wrote
-        ctx.mark('read-only')
+        marks.append('read-only')
     for kind, key in store.log:
         if kind == 'delete_prefix':
             # the delete request itself must be scoped to one of the two own areas
@@ -137,12 +147,49 @@ def confined(p1: str, p2: str, ro: bool, tr_: bool, calls: List[int], foreign: s
     if not ro and tr_:
         ok = ok and not any(_in_area(k, p1) for k in store.keys())
         if wrote:
-            ctx.mark('transient-cleanup')
+            marks.append('transient-cleanup')
     if not ro and not tr_ and wrote:
         a, b = _area(p1)
         for rid in saved:
             ok = ok and store.find(a + rid) >= 0 and store.find(b + rid) >= 0
-    return ctx.done(ok, 'transient-cleanup')
+    return ok, marks
+
+
+def confined_symbolic(prefix: str, read_only: bool, transient: bool, cat: str, foreign: str) -> bool:
+    """
+    pre: len(prefix) <= B('PL') and len(cat) == 1 and len(foreign) <= B('FL')
+    pre: cat not in ('/', '{', '}', '.') and '{' not in prefix and '}' not in prefix
+    post: _
+    """
+    # the same confinement claims with the prefix, category and foreign key kept as genuinely symbolic TEXTS (any
+    # characters): one create + save + close in a bucket holding one foreign object
+    ctx.begin()
+    env = s3env.install()
+    store = env.store
+    own = ROOT + ((prefix + '/') if prefix else '')
+    fkey = ROOT + foreign
+    store.seed(fkey, b'x', 0)
+    cas = _mk(prefix, read_only, transient)
+    wrote = False
+    try:
+        rec = cas.create_new_recording(cat)
+        rec.set_data('k', 1)
+        cas.save_recording(rec)
+        wrote = True
+    except AssertionError:
+        pass
+    cas.close()
+    ok = True
+    if read_only:
+        ok = ok and store.log == [] and not wrote
+    for kind, key in store.log:
+        ok = ok and (key.startswith(own + 'full/') or key.startswith(own + 'metadata/'))
+    if not fkey.startswith(own + 'full/') and not fkey.startswith(own + 'metadata/'):
+        ok = ok and store.find(fkey) >= 0
+    if not read_only and transient:
+        ok = ok and not any(k.startswith(own + 'full/') or k.startswith(own + 'metadata/') for k in store.keys())
+        ctx.mark('transient')
+    return ctx.done(ok, 'transient')
 
 
 def crash_during_save(p1: str, crash_at: int, n_saves: int, sizeclass: bool) -> bool:
@@ -157,6 +204,16 @@ def crash_during_save(p1: str, crash_at: int, n_saves: int, sizeclass: bool) -> 
     p1 = ctx.pick(p1, B('P1'))
     crash_at = ctx.pick(crash_at, range(1, 2 * B('N') + 1))
     n_saves = ctx.pick(n_saves, range(1, B('N') + 1))
+    sizeclass = True if sizeclass else False
+    with ctx.untraced():
+        ok, crashed = _crash(p1, crash_at, n_saves, sizeclass)
+    if crashed:
+        ctx.mark('crashed-mid-save')
+    return ctx.done(ok, 'crashed-mid-save')
+
+
+def _crash(p1, crash_at, n_saves, sizeclass):
+    crashed = False
     env = s3env.install()
     store = env.store
     cas = _mk(p1, False, False)
@@ -170,7 +227,7 @@ def crash_during_save(p1: str, crash_at: int, n_saves: int, sizeclass: bool) -> 
             rec.add_metadata({'m': i})
             cas.save_recording(rec)
     except fs3.Crash:
-        ctx.mark('crashed-mid-save')
+        crashed = True
     store.crash_after = None
     reader = _mk(p1, True, False)
     ok = True
@@ -178,7 +235,7 @@ def crash_during_save(p1: str, crash_at: int, n_saves: int, sizeclass: bool) -> 
         full = reader.get_recording(rid)          # NoSuchRecording here = discoverable but not fetchable
         alone = reader.get_recording_metadata(rid)
         ok = ok and full.get_metadata() == alone and len(list(full.get_all_keys())) == 1
-    return ctx.done(ok, 'crashed-mid-save')
+    return ok, crashed
 
 
 _A = ['a', 'b', '/']
@@ -193,6 +250,10 @@ CONDITIONS = [
                'thorough': {'bounds': {'P1': _PW, 'P2': _PW, 'C': 3, 'FOREIGN': ['', 'a', 'a/full/x', 'ab/metadata/y', 'full/z', 'a/', 'a//full/q', 'metadata/']}, 'timeout': 8000,
                             'shards': [{'ro': r, 'tr': t, 'p1': w} for r in (False, True) for t in (False, True) for w in _PW],
                             'witness_shard': {'ro': False, 'tr': True, 'p1': 'a'}}}},
+    {'fn': 'confined_symbolic', 'nontrivial': 'transient',
+     'what': 'prefix / category / foreign key as genuinely symbolic texts (any characters) in a one-save scenario',
+     'tiers': {'quick': {'bounds': {'PL': 2, 'FL': 3}, 'timeout': 400, 'shards': [{}]},
+               'thorough': {'bounds': {'PL': 3, 'FL': 4}, 'timeout': 3000, 'shards': [{}]}}},
     {'fn': 'crash_during_save', 'nontrivial': 'crashed-mid-save',
      'what': 'crash after each individual bucket mutation of every save: discoverable => completely fetchable',
      'tiers': {'quick': {'bounds': {'P1': ['', 'a'], 'N': 2}, 'timeout': 300, 'shards': [{}]},
